@@ -575,6 +575,13 @@ class BlockUploadStream(io.RawIOBase):
                     raise SdoCommunicationError("CRC is not OK")
                 logger.info("CRC is OK")
         self.pos += len(data)
+        if self._done and self.size is not None and self.pos != self.size:
+            # A CRC of zero does not change when zero bytes are appended, so
+            # the checksum alone cannot catch a wrong count of unused bytes
+            self._error = True
+            self.sdo_client.abort(0x06070010)
+            raise SdoCommunicationError(
+                f"Received {self.pos} bytes but the server announced {self.size}")
         return data
 
     def _retransmit(self):
